@@ -253,7 +253,8 @@ func wellFormed(c []*Term, t types.Type) {
 			lo += n
 		}
 	case *types.Interface:
-		AddFact(c[0], ILe(IntC(0), c[0]))
+		AddFact(c[0], And(ILe(IntC(0), c[0]), Implies(Eq(c[0], IntC(0)), Eq(c[1], IntC(0)))))
+		AddFact(c[1], Implies(Eq(c[0], IntC(0)), Eq(c[1], IntC(0))))
 	case *types.Pointer, *types.Map, *types.Chan:
 		AddFact(c[0], ILe(IntC(0), c[0]))
 	}
